@@ -24,6 +24,8 @@ import Mathlib.Analysis.SpecialFunctions.Complex.Log
 import Mathlib.Analysis.SpecialFunctions.Trigonometric.Basic
 import Mathlib.Algebra.BigOperators.Group.Finset.Basic
 import Mathlib.Tactic.Ring
+import Mathlib.Data.List.Basic
+import Mathlib.Data.Rat.Floor
 import Mathlib.Tactic.Linarith
 import Mathlib.Tactic.FieldSimp
 import Mathlib.Tactic.LinearCombination
@@ -423,6 +425,83 @@ theorem sfQ_correct (vol : ℚ) (atoms : List (HKL × ℚ)) (h : HKL) :
   rw [toC_smul, foldl_sum]
   have : toC GQ.zero = 0 := by apply Complex.ext <;> simp [toC, GQ.zero]
   rw [this, zero_add]; push_cast; ring
+
+/-! ### the centering test of `auto_detect_centering` -/
+
+lemma sum_le_mul {α} (l : List α) (f : α → ℕ) (c : ℕ) (hle : ∀ x ∈ l, f x ≤ c) : (l.map f).sum ≤ c * l.length := by
+  induction l with
+  | nil => simp
+  | cons a l ih =>
+    have ha := hle a (List.mem_cons_self ..)
+    have := ih fun y hy => hle y (List.mem_cons_of_mem _ hy)
+    simp only [List.map_cons, List.sum_cons, List.length_cons]; nlinarith
+
+lemma sum_ge_all_eq {α} (l : List α) (f : α → ℕ) (c : ℕ) (hle : ∀ x ∈ l, f x ≤ c) (hsum : c * l.length ≤ (l.map f).sum) :
+    ∀ x ∈ l, f x = c := by
+  induction l with
+  | nil => intro x hx; simp at hx
+  | cons a l ih =>
+    have ha : f a ≤ c := hle a (List.mem_cons_self ..)
+    have hl : (l.map f).sum ≤ c * l.length := sum_le_mul l f c fun y hy => hle y (List.mem_cons_of_mem _ hy)
+    simp only [List.map_cons, List.sum_cons, List.length_cons] at hsum
+    have hfa : f a = c := by nlinarith
+    have hrest : c * l.length ≤ (l.map f).sum := by nlinarith
+    intro x hx
+    rcases List.mem_cons.mp hx with h | h
+    · exact h ▸ hfa
+    · exact ih (fun y hy => hle y (List.mem_cons_of_mem _ hy)) hrest x h
+
+/-- **Soundness of the centering test** (`all_positions_have_relative_periodic_pair`): with at most one atom of the species
+per site, a positive answer means that every atom has a partner of the same species at every listed translation — the
+invariance hypothesis of `centering_extinction`. -/
+theorem hasAllPairs_sound (ps : List Pos) (rel : List (List ℚ))
+    (hdist : ∀ p ∈ ps, ∀ t ∈ rel, (ps.filter fun q => sameSite q (shift p t)).length ≤ 1)
+    (h : hasAllPairs ps rel = true) :
+    ∀ p ∈ ps, ∀ t ∈ rel, ∃ q ∈ ps, sameSite q (shift p t) = true := by
+  unfold hasAllPairs at h
+  split at h
+  · simp at h
+  · split at h
+    · simp at h
+    · simp only [decide_eq_true_eq, ge_iff_le] at h
+      have inner_le : ∀ p ∈ ps, (rel.map fun t => (ps.filter fun q => sameSite q (shift p t)).length).sum ≤ rel.length := by
+        intro p hp
+        have : ∀ (l : List (List ℚ)), (∀ t ∈ l, t ∈ rel) →
+            (l.map fun t => (ps.filter fun q => sameSite q (shift p t)).length).sum ≤ l.length := by
+          intro l
+          induction l with
+          | nil => intro _; simp
+          | cons t l ih =>
+            intro hl
+            have h1 := hdist p hp t (hl t (List.mem_cons_self ..))
+            have h2 := ih fun s hs => hl s (List.mem_cons_of_mem _ hs)
+            simp only [List.map_cons, List.sum_cons, List.length_cons]; omega
+        exact this rel fun t ht => ht
+      have outer := sum_ge_all_eq ps (fun p => (rel.map fun t => (ps.filter fun q => sameSite q (shift p t)).length).sum)
+        rel.length inner_le h
+      intro p hp t ht
+      have hin := sum_ge_all_eq rel (fun t => (ps.filter fun q => sameSite q (shift p t)).length) 1
+        (fun t ht => hdist p hp t ht) (by simpa using (outer p hp).ge) t ht
+      have hpos : 0 < (ps.filter fun q => sameSite q (shift p t)).length := by omega
+      obtain ⟨q, hq⟩ := List.exists_mem_of_length_pos hpos
+      obtain ⟨hq1, hq2⟩ := List.mem_filter.mp hq
+      exact ⟨q, hq1, hq2⟩
+
+lemma frac_zero (x : ℚ) (h : (frac x == 0) = true) : ∃ m : ℤ, x = m := by
+  refine ⟨x.floor, ?_⟩
+  have h0 : frac x = 0 := by simpa using h
+  unfold frac at h0
+  linarith
+
+/-- `sameSite` means: equal modulo a lattice vector (the `m` of `centering_extinction`) -/
+theorem sameSite_spec (a b : Pos) (h : sameSite a b = true) :
+    ∃ m0 m1 m2 : ℤ, a.1 - b.1 = m0 ∧ a.2.1 - b.2.1 = m1 ∧ a.2.2 - b.2.2 = m2 := by
+  simp only [sameSite, Bool.and_eq_true] at h
+  obtain ⟨⟨h0, h1⟩, h2⟩ := h
+  obtain ⟨m0, e0⟩ := frac_zero _ h0
+  obtain ⟨m1, e1⟩ := frac_zero _ h1
+  obtain ⟨m2, e2⟩ := frac_zero _ h2
+  exact ⟨m0, m1, m2, e0, e1, e2⟩
 
 /-! ### non-vacuity -/
 example : (("A", [[(0 : ℚ), 0, 0], [0, (1 : ℚ) / 2, (1 : ℚ) / 2]]) : String × List (List ℚ)) ∈ centeringTranslations := by
